@@ -144,3 +144,15 @@ Definition result_from_game (d : windetails) : res result_text :=
        | GWhite => Ok (RWhite (wd_road d))
        | GBlack => Ok (RBlack (wd_road d))
        end.
+
+(* ---- hash.go Position.Equal (sizes equal => Height/Stacks have equal lengths) ---- *)
+Fixpoint lists_eqb (a b : list N) : bool :=
+  match a, b with
+  | [], _ => true                                   (* `for i := range p.Height` : ranges over p's slice *)
+  | x :: a', y :: b' => (x =? y) && lists_eqb a' b'
+  | _ :: _, [] => false                             (* would be an index panic; unreachable for equal sizes *)
+  end.
+Definition equal (p q : position) : bool :=
+  (size p =? size q) && (hash p =? hash q) && (White p =? White q) && (Black p =? Black q) &&
+  (Standing p =? Standing q) && (Caps p =? Caps q) && Bool.eqb (to_move_white p) (to_move_white q) &&
+  lists_eqb (Height p) (Height q) && lists_eqb (Stacks p) (Stacks q).
